@@ -6,7 +6,7 @@ KEY_POOL = [b'a', b'b', b'c', b'd', b'aa', b'ab', b'B', b'_x', b'k1', b'z', b'a-
 STR_POOL = [b'x', b'y', b'abc', b'', b'a b', b'X', b'10', b'ab', b'bc']
 NUM_POOL = [0.0, 1.0, 2.0, 3.0, -1.0, 0.5, 1.5, 10.0, 100.0, -2.5, 1e300, 2.0 ** 53, 0.1]
 JNUM_POOL = ['0', '1', '2', '3', '-1', '0.5', '1.5', '10', '100', '-2.5', '1e2', '1.0', '2.50', '1E1', '0.1', '1e400', '-1e999']
-DEEP_ONLY_KINDS = ['intmap', 'intslice', 'namedslice', 'namedmap', 'bytes', 'freshptr']
+DEEP_ONLY_KINDS = ['intmap', 'intslice', 'namedslice', 'namedmap', 'bytes', 'freshptr', 'freshptr', 'ifacestruct', 'ifacestruct']
 FILTER_FUNCS = ['twice', 'wrap', 'tn', 'fail', 'fstr', 'id']
 AGG_FUNCS = ['cnt', 'first', 'arr', 'afail', 'amax']
 
@@ -535,8 +535,9 @@ def refs_family(g, jnum=False, opaque_kinds=None):
         # at least one kind whose values cannot be compared with Go's == (typed maps and slices) or are
         # fresh pointers: path-vs-path equality must be reflect.DeepEqual on them
         deep = [k for k in opaque_kinds if k in DEEP_ONLY_KINDS]
-        ks = r.sample(opaque_kinds, min(2, len(opaque_kinds))) + ([r.choice(deep)] if deep else [])
-        r.shuffle(ks)
+        # the deep-only kind comes first: it gets the largest weight, so both sides of `==` often hold it
+        strict = [k for k in ('freshptr', 'ifacestruct') if k in opaque_kinds]   # equal only by reflect.DeepEqual; `==` differs or panics
+        ks = ([r.choice(strict)] if strict else []) + ([r.choice(deep)] if deep else []) + r.sample(opaque_kinds, 1)
         pool = [('x', k) for k in ks] + [('n', 1.0), ('s', b'x')]
     else:
         nums = r.sample([0.0, 1.0, 2.0, 3.0, 5.0, 1.5, -1.0, 10.0], 3)
